@@ -13,7 +13,8 @@ func init() {
 			"proto.Marshal/Unmarshal and the JSON codec are inverse on the entry types (C18)",
 		},
 		NotCovered: []string{
-			"FirstIndex/LastIndex (iteration that skips the stablestore- keys), the value returned for an empty log, and every statement about sequences of operations, close/reopen and kill/reopen: they need a model of the ordered key-value store and of iterator positions, which the contracts of this generator do not have",
+			"FirstIndex/LastIndex (iteration that skips the stablestore- keys), the value returned for an empty log, and every statement about sequences of operations, close/reopen and kill/reopen: they need a model of the ordered key-value store and of iterator positions, which the contracts of this generator do not have. A labelled BOUNDED stand-in (bounded_standins) runs every operation sequence within the bound on a real LevelDB and compares with a map after every step; it is not a proof and not counted",
+			"kill (as opposed to close) before reopen, the JSON encoding and the JSON-to-protobuf migration as whole-database operations",
 			"ConvertToProto as a whole-database migration (its per-entry encoding is covered: C18 obligations encoded / same-entry)",
 		},
 	}
@@ -27,5 +28,6 @@ func init() {
 		}
 		return nil
 	}
+	p.BoundedRun = storeBounded
 	register(p)
 }
